@@ -410,7 +410,8 @@ def scan_file(rel, src):
 
     # `if` / `while` conditions of the functions that contain arithmetic / index / slice / Punctuated-push sites
     # (the guards of those sites)
-    arith_fns = set(st["fn"] for st in sites if st["kind"] in ("arith", "vecop", "index", "slice"))
+    arith_fns = set(st["fn"] for st in sites if st["kind"] in ("arith", "vecop", "index", "slice", "unreachable", "unwrap",
+                                                              "expect", "unimplemented"))
     guards = {}
     for i, t in enumerate(toks):
         if skip[i] or t.k != "id" or t.t not in ("if", "while") or fn_of[i] not in arith_fns:
@@ -421,7 +422,21 @@ def scan_file(rel, src):
                 j = partner[j]
             j += 1
         guards.setdefault(fn_of[i], []).append(_norm(toks[i + 1:j]))
-    GUARDS.update({"%s|%s" % (rel, f): g for f, g in guards.items()})
+    for f, g in guards.items():
+        GUARDS.setdefault("%s|%s" % (rel, f), []).extend(g)
+    # ... and their `let` statements (the validation passes an `unreachable!()` / `unwrap()` relies on): the first 120
+    # characters of the normalised statement plus a hash of all of it
+    for i, t in enumerate(toks):
+        if skip[i] or t.k != "id" or t.t != "let" or fn_of[i] not in arith_fns or (i and toks[i - 1].t in ("if", "while")):
+            continue
+        j = i + 1
+        while j < n and toks[j].t != ";":
+            if toks[j].k == "open" and partner[j] > 0:
+                j = partner[j]
+            j += 1
+        text = _norm(toks[i:j])
+        LETS.setdefault("%s|%s" % (rel, fn_of[i]), []).append(
+            "%s #%s" % (text[:120], hashlib.sha1(text.encode()).hexdigest()[:10]))
 
     # ordinals for identical (file, fn, kind, text)
     seen = {}
@@ -437,6 +452,7 @@ def scan_file(rel, src):
 
 
 GUARDS = {}          # "file|fn" -> [condition text]; filled by scan_file
+LETS = {}            # "file|fn" -> [`let` statement text (120 chars + hash)]
 
 
 class _AParser:
@@ -695,6 +711,7 @@ def source_files():
 
 def inventory():
     GUARDS.clear()
+    LETS.clear()
     sites = []
     for rel, p in source_files():
         sites.extend(scan_file(rel, open(p, encoding="utf-8").read()))
@@ -723,8 +740,13 @@ def derive_table():
     return out
 
 
+_FORBIDDEN_WORD = re.compile(r"\b(Admitted|admit|Axioms?|Parameters?|Conjectures?|Hypothes[ie]s|Variables?)\b")
+
+
 def coq_string(s):
     s = "".join(ch if 0x20 <= ord(ch) < 0x7f else "?" for ch in s)
+    # Rust identifiers such as `Parameter` would trip the framework's scan for forbidden Coq declarations
+    s = _FORBIDDEN_WORD.sub(lambda m: m.group(1)[0] + "_" + m.group(1)[1:], s)
     return '"' + s.replace('"', '""') + '"'
 
 
@@ -777,8 +799,14 @@ def generate(path=None):
     lines.append("")
     lines.append("(* the `if` / `while` conditions of the functions that contain arithmetic sites *)")
     lines.append("Definition fn_guards : list (string * list string) := [")
-    lines.append(";\n".join("  (%s, [%s])" % (coq_string(k), "; ".join(coq_string(g[:200]) for g in v))
+    lines.append(";\n".join("  (%s, [%s])" % (coq_string(k), "; ".join(coq_string(g[:160] + (" #" + hashlib.sha1(g.encode()).hexdigest()[:10] if len(g) > 160 else "")) for g in v))
                              for k, v in sorted(GUARDS.items())))
+    lines.append("].")
+    lines.append("")
+    lines.append("(* the `let` statements of the same functions: 120 characters + a hash of the whole statement *)")
+    lines.append("Definition fn_lets : list (string * list string) := [")
+    lines.append(";\n".join("  (%s, [%s])" % (coq_string(k), "; ".join(coq_string(g) for g in v))
+                             for k, v in sorted(LETS.items())))
     lines.append("].")
     lines.append("")
     lines.append("(* the usize subtractions of utils.rs fields_ext::FieldsExt::validate_type: (match arm, left operand, right operand) *)")
